@@ -1,5 +1,6 @@
 import Cx.Model.Dfa
 import Cx.Proofs.DfaCache
+import Cx.Proofs.DfaClo
 import Cx.Proofs.Nfa
 /-
   Cx.Proofs.DfaLimit — the uncached searches never give up on a well-formed NFA with at most `detLimit` states:
@@ -8,31 +9,6 @@ import Cx.Proofs.Nfa
 -/
 namespace Cx.Dfa
 open Cx Cx.Nfa
-
-theorem nodup_bounded_length : ∀ (n : Nat) (L : List Nat), L.Nodup → (∀ q ∈ L, q < n) → L.length ≤ n := by
-  intro n
-  induction n with
-  | zero =>
-    intro L _ hb
-    cases L with
-    | nil => simp
-    | cons x xs => exact absurd (hb x List.mem_cons_self) (by omega)
-  | succ n ih =>
-    intro L hn hb
-    by_cases hm : n ∈ L
-    · have h1 := ih (L.erase n) (hn.erase n) (by
-        intro q hq
-        have := (hn.mem_erase_iff).mp hq
-        have := hb q this.2
-        omega)
-      have := List.length_erase_of_mem hm
-      omega
-    · have := ih L hn (by
-        intro q hq
-        have := hb q hq
-        have : q ≠ n := fun h => hm (h ▸ hq)
-        omega)
-      omega
 
 /-- a duplicate-free list of state ids of the automaton -/
 def Bounded (N : NFA) (L : List Nat) : Prop := L.Nodup ∧ ∀ q ∈ L, q < N.states.size
@@ -146,19 +122,14 @@ theorem moveLoop_bounded {N : NFA} (hwf : wfB N = true) (lk : LookSet) (b : Nat)
       exact wf_targets hwf (q := q) (by rw [hq]; simp only [stateTargets, List.mem_map]; exact ⟨t, ht, rfl⟩)
     | _ => exact ih res hr
 
-theorem moveBreak_len {N : NFA} (hwf : wfB N = true) (cur : List Nat) (b : Nat) (fw brk : Bool) :
-    (moveBreak N cur b fw brk).length ≤ N.states.size := by
-  unfold moveBreak
-  exact (moveLoop_bounded hwf (lookAfter b) b brk _ [] (bounded_nil N)).length_le
-
 /-- `determinize` never hits the determinization limit -/
 theorem step_ne_limit {N : NFA} (hwf : wfB N = true) {cfg : Config} (hl : N.states.size ≤ cfg.detLimit) (S : DState)
     (b : Nat) : step N cfg S b ≠ .limit := by
   unfold step
   simp only
-  generalize (if hasEndLine N = true ∧ b = 10 then epsilonClosure N S.nfa { endLine := true } else S.nfa) = cur
-  have hlen := moveBreak_len hwf cur b S.fromWord (containsMatch N cur && cfg.breakAtMatch)
-  by_cases h1 : (moveBreak N cur b S.fromWord (containsMatch N cur && cfg.breakAtMatch)).isEmpty = true ∧
+  generalize resolved N S b = cur
+  have hlen := (moveLoop_bounded hwf (lookAfter b) b (containsMatch N cur && cfg.breakAtMatch) cur [] (bounded_nil N)).length_le
+  by_cases h1 : (moveLoop N (lookAfter b) b (containsMatch N cur && cfg.breakAtMatch) cur []).isEmpty = true ∧
       containsMatch N cur = false
   · rw [if_pos h1]; intro hh; cases hh
   · rw [if_neg h1, if_neg (by omega)]; intro hh; cases hh
@@ -172,12 +143,10 @@ theorem searchLoopU_ne_gaveUp {N : NFA} (hwf : wfB N = true) {cfg : Config} (hl 
     intro pos S last
     rw [searchLoopU]
     split
-    · split
-      · intro hh; cases hh
-      · cases hs : step N cfg S (h.at pos) with
-        | dead => intro hh; cases hh
-        | limit => exact absurd hs (step_ne_limit hwf hl S _)
-        | next T => exact ih _ _ _
+    · cases hs : step N cfg S (h.at pos) with
+      | dead => intro hh; cases hh
+      | limit => exact absurd hs (step_ne_limit hwf hl S _)
+      | next T => exact ih _ _ _
     · split <;> (intro hh; cases hh)
 
 theorem earliestLoopU_ne_gaveUp {N : NFA} (hwf : wfB N = true) {cfg : Config} (hl : N.states.size ≤ cfg.detLimit)
@@ -189,32 +158,13 @@ theorem earliestLoopU_ne_gaveUp {N : NFA} (hwf : wfB N = true) {cfg : Config} (h
     intro pos S
     rw [earliestLoopU]
     split
-    · split
-      · intro hh; cases hh
-      · cases hs : step N cfg S (h.at pos) with
-        | dead => intro hh; cases hh
-        | limit => exact absurd hs (step_ne_limit hwf hl S _)
-        | next T => simp only; split
-                    · intro hh; cases hh
-                    · exact ih _ _
+    · cases hs : step N cfg S (h.at pos) with
+      | dead => intro hh; cases hh
+      | limit => exact absurd hs (step_ne_limit hwf hl S _)
+      | next T => simp only; split
+                  · intro hh; cases hh
+                  · exact ih _ _
     · intro hh; cases hh
-
-theorem anchoredLoopU_ne_gaveUp {N : NFA} (hwf : wfB N = true) {cfg : Config} (hl : N.states.size ≤ cfg.detLimit)
-    (h : Bytes) : ∀ (fuel pos : Nat) (S : DState) (last : Option Nat), anchoredLoopU N cfg h fuel pos S last ≠ .gaveUp := by
-  intro fuel
-  induction fuel with
-  | zero => intro pos S last hh; cases hh
-  | succ fuel ih =>
-    intro pos S last
-    rw [anchoredLoopU]
-    split
-    · split
-      · intro hh; cases hh
-      · cases hs : step N cfg S (h.at pos) with
-        | dead => intro hh; cases hh
-        | limit => exact absurd hs (step_ne_limit hwf hl S _)
-        | next T => exact ih _ _ _
-    · split <;> (intro hh; cases hh)
 
 theorem searchAtU_ne_gaveUp {N : NFA} (hwf : wfB N = true) {cfg : Config} (hl : N.states.size ≤ cfg.detLimit)
     (h : Bytes) (at_ : Nat) : searchAtU N cfg h at_ ≠ .gaveUp := by
@@ -236,6 +186,6 @@ theorem earliestU_ne_gaveUp {N : NFA} (hwf : wfB N = true) {cfg : Config} (hl : 
 
 theorem anchoredU_ne_gaveUp {N : NFA} (hwf : wfB N = true) {cfg : Config} (hl : N.states.size ≤ cfg.detLimit)
     (h : Bytes) (at_ : Nat) : anchoredU N cfg h at_ ≠ .gaveUp :=
-  anchoredLoopU_ne_gaveUp hwf hl h _ _ _ _
+  searchLoopU_ne_gaveUp hwf hl h _ _ _ _
 
 end Cx.Dfa
